@@ -415,6 +415,48 @@ def _env(ctx: core.Ctx):
         core.reset_config()
 
 
+@st.composite
+def tolerance_case(draw):
+    t = draw(fc.tables(dist_km=3000.0))
+    rts = fc.route().filter(lambda r: r['dist_km'] <= 3500.0)
+    m = draw(rts.flatmap(lambda r: fc.mission(rt=r, max_alt_ft=t['max_alt_ft'], above=False)))
+    return {'tolerance_sweep': True, 'table': t, 'mission': m,
+            # a fine geometric grid: a leftover that exceeds the tolerance by a few per cent needs the tolerance to fall
+            # into a narrow window relative to the residuals of the individual passes
+            'reltol': 10.0 ** -(draw(st.integers(50, 450)) / 100.0), 'step': draw(st.sampled_from([0.25, 0.2, 0.34]))}
+
+
+def tolerance_body(ctx: core.Ctx, case):
+    """With mass iteration enabled a returned trajectory leaves at most the requested relative tolerance of trip fuel."""
+    ctx.case(case)
+    ctx.evaluations += 1
+    m, t = case['mission'], case['table']
+    o = {'iterate': True, 'max_iters': 12, 'reltol': case['reltol'], 'clm': case['step'], 'crz': case['step'], 'des': case['step']}
+    codes = ('A00', 'B00')
+    apt = {codes[0]: tuple(m['o']), codes[1]: tuple(m['d'])}
+    pm = fc.build_pm(t)
+    with fc.airports(apt):
+        mission = fc.make_mission(m, origin=codes[0], destination=codes[1])
+        try:
+            traj = fc.make_builder(o).fly(pm, mission)
+        except core.PASS_THROUGH:
+            raise
+        except fc.INTERNAL_ERRORS as e:
+            ctx.fail_exc('reject.internal_error', e, 'tolerance_sweep', case)
+            return
+        except Exception:  # noqa: BLE001  (a rejection or a non-convergence report: judged by the histories above)
+            ctx.label('tolerance_sweep:rejected_or_not_converged')
+            return
+    tfm, sm0, last = float(traj.total_fuel_mass), float(traj.starting_mass), float(traj.aircraft_mass[-1])
+    res = abs(tfm - (sm0 - last)) / abs(tfm)
+    ctx.label('tolerance_sweep:returned')
+    if not res < case['reltol']:
+        ctx.fail('iterate.tolerance', 'mismatch', 'base._iterate_mass', 'returned_unconverged',
+                 f'leftover trip fuel / trip fuel = {res!r} >= tolerance {case["reltol"]!r} '
+                 f'(total_fuel_mass {tfm!r}, starting_mass {sm0!r}, final mass {last!r})', case)
+    ctx.mark_nontrivial({'tol': case['reltol'], 'res': res})
+
+
 def run(ctx: core.Ctx):
     fc.selftest()
     ctx.level = 'exploration'
@@ -430,7 +472,8 @@ def run(ctx: core.Ctx):
         'Every call is repeated on a brand-new builder with the same options: bit-identical arrays and metadata or '
         'the same exception type and message. evaluations = builder calls. A history is non-trivial when a valid '
         'flight succeeds after at least one failed flight and some (mission, table, kind) is flown twice; distinct = '
-        'hash of the operation log.'
+        'hash of the operation log. Plus a tolerance sweep: single iterated flights with tolerances on a fine geometric grid; '
+        'a returned trajectory leaves less than the requested relative tolerance of trip fuel.'
     )
     ctx.assumptions = [
         'the same performance-model object is given to the history builder and to the fresh builder (a Mission object is never reused)',
@@ -442,9 +485,13 @@ def run(ctx: core.Ctx):
         core.run_machine(ctx, machine_for('block'), max_examples=ctx.n(16, 130), steps=16, salt=0)
         core.run_machine(ctx, machine_for('fine'), max_examples=ctx.n(16, 160), steps=16, salt=20)
         core.run_machine(ctx, machine_for('weather'), max_examples=ctx.n(6, 40), steps=16, salt=40)
+        core.run_given(ctx, tolerance_case(), lambda c: tolerance_body(ctx, c), ctx.n(250, 2500), salt=60)
 
 
 def replay(ctx: core.Ctx, case):
     fc.selftest()
+    if isinstance(case, dict) and case.get('tolerance_sweep'):
+        with _env(ctx):
+            return tolerance_body(ctx, case)
     with _env(ctx):
         core.replay_machine(BuilderMachine, ctx, case, invariants=())
